@@ -10,6 +10,6 @@ CONSTANTS
   EmitEdges = FALSE
 SPECIFICATION Spec
 VIEW View
-INVARIANTS TypeOK RegistryExact NoPanic BroadcasterNeverBlocks OthersUnaffected NoLeak SpawnedAreTargets
+INVARIANTS TypeOK RegistryExact NoPanic BroadcasterNeverBlocks OthersUnaffected NoLeak SpawnedAreTargets DeliveredAtQuiescence
 PROPERTIES Delivered SendReturns NoLeakLive
 CHECK_DEADLOCK FALSE
